@@ -1,14 +1,22 @@
 (* C03  vorbisfile is memory-safe and terminates on arbitrary physical streams.
    What the models carry, for ARBITRARY page tables / granule positions / states:
    the packet-and-page loops of the read path terminate within the fuel the
-   model computes (each iteration consumes a queued packet or a page); the
+   model computes (each iteration consumes a queued packet or a page); EVERY
+   loop of the seek path (the scan of ov_raw_seek, the packet-discarding and
+   the sample-discarding loop of ov_pcm_seek, the packet fetch they call)
+   terminates: its result is independent of the fuel beyond the measure of the
+   state, and ov_raw_seek / ov_pcm_seek supply more than that measure, so the
+   functions with any amount of extra fuel compute the same result; the page
+   seek never reports the out-of-fuel marker (the one loop of the C code that
+   did not terminate - the page rewind of ov_pcm_seek_page - was found by the
+   per-run exploration and repaired, commit abb7138); the
    decoder's buffer writes stay inside its 2*n1 cells from any state; granule
    trimming never offers more than was produced whatever the granule position;
    the data source is closed only by ov_clear, once, never after a failed open.
    Memory safety of the C code itself on arbitrary bytes (libogg framing,
    header parsing, the byte-level bisection) is decided per run by mutation
    of real files x random call sequences under ASan/UBSan with a watchdog. *)
-From VV Require Import Blocking Blocking_lemmas Overlap Overlap_lemmas VFile VFile_lemmas Ledger Ledger_lemmas.
+From VV Require Import Blocking Blocking_lemmas Overlap Overlap_lemmas VFile VFile_lemmas Term_lemmas Ledger Ledger_lemmas.
 Local Open Scope Z_scope.
 
 Theorem C03_fetch_terminates_any_page_table :
@@ -25,6 +33,44 @@ Theorem C03_fetch_result_is_packet_or_eof :
   forall fuel s, fst (fetch fuel s) = 1 \/ fst (fetch fuel s) = OV_EOF_ \/ fst (fetch fuel s) = OUT_OF_FUEL.
 Proof. exact fetch_rc. Qed.
 Print Assumptions C03_fetch_result_is_packet_or_eof.
+
+(* ---- the seek path: every loop ends, for any page table and any handle state ---- *)
+Theorem C03_fetch_fuel_independent :
+  forall f1 f2 s, (measure s < f1)%nat -> (measure s < f2)%nat -> fetch f1 s = fetch f2 s.
+Proof. exact fetch_fuel_indep. Qed.
+Print Assumptions C03_fetch_fuel_independent.
+
+Theorem C03_raw_scan_terminates :
+  forall f1 f2 s r, (rmeasure s r < f1)%nat -> (rmeasure s r < f2)%nat -> raw_scan f1 s r = raw_scan f2 s r.
+Proof. exact raw_scan_fuel. Qed.
+Print Assumptions C03_raw_scan_terminates.
+
+Theorem C03_seek_discard_terminates :
+  forall f1 f2 s pos lb, (measure s < f1)%nat -> (measure s < f2)%nat -> seek_discard f1 s pos lb = seek_discard f2 s pos lb.
+Proof. exact seek_discard_fuel. Qed.
+Print Assumptions C03_seek_discard_terminates.
+
+Theorem C03_seek_skip_terminates :
+  forall f1 f2 s pos, 0 <= v_hs s -> pos <= pcm_total s ->
+    (packets s + 2 <= f1)%nat -> (packets s + 2 <= f2)%nat -> seek_skip f1 s pos = seek_skip f2 s pos.
+Proof. exact seek_skip_fuel. Qed.
+Print Assumptions C03_seek_skip_terminates.
+
+(* the functions themselves: any amount of extra fuel in their loops changes nothing *)
+Theorem C03_raw_seek_terminates_any_page_table :
+  forall k s pos, raw_seek_x k s pos = raw_seek s pos.
+Proof. exact raw_seek_terminates. Qed.
+Print Assumptions C03_raw_seek_terminates_any_page_table.
+
+Theorem C03_pcm_seek_terminates_any_page_table :
+  forall k s pos, 0 <= v_hs s -> pcm_seek_x k s pos = pcm_seek s pos.
+Proof. exact pcm_seek_terminates. Qed.
+Print Assumptions C03_pcm_seek_terminates_any_page_table.
+
+Theorem C03_page_seek_never_out_of_fuel :
+  forall s pos, fst (pcm_seek_page s pos) <> OUT_OF_FUEL.
+Proof. exact pcm_seek_page_rc. Qed.
+Print Assumptions C03_page_seek_never_out_of_fuel.
 
 Theorem C03_decoder_writes_in_bounds_from_any_state :
   forall c s b, SizesOK c ->
